@@ -160,6 +160,18 @@ Theorem C03_canonical_key_ci : forall n1 n2,
 Proof. exact canon_key_ci. Qed.
 Print Assumptions C03_canonical_key_ci.
 
+(* a parameter is looked up in its declared location only: two requests that agree on that location (query
+   string, header lines, route parameters, or the fields of the form body) have the same outcome whatever the
+   other locations carry -- a same-named key in the query string never overrides, replaces or stands in for a
+   formData field, nor a body field, header line or path segment for a query parameter, and so on. Holds of
+   the model of the code and of the specification, for every request (no well-formedness needed) *)
+Theorem C03_only_declared_location : forall O d rq rq' valid,
+  own_source d rq = own_source d rq' ->
+  bind_param O d rq valid = bind_param O d rq' valid /\
+  spec_outcome O d rq valid = spec_outcome O d rq' valid.
+Proof. exact only_declared_location. Qed.
+Print Assumptions C03_only_declared_location.
+
 (* for every declaration of the modelled language (the four primitive types with any format, arrays of them
    with any collection format, default conforming to the type), every request, every answer of the oracles:
    bound, or 422 naming the parameter. Never a panic. *)
